@@ -231,3 +231,174 @@ fn verif_extend_copied<T: Copy, const N: usize>(v: &mut HVec<T, N>, s: &[T])
         r.remaining_keys_to_release@ == (if cch.release_behaviour == ReleaseBehaviour::OnLastRelease { cch.participating_keys@ } else { Seq::<u16>::empty() }),
         // already released while being collected, under release-on-first-release: starts out released
         r.status == (if release_found && cch.release_behaviour == ReleaseBehaviour::OnFirstRelease { ActiveChordStatus::UnreadReleased } else { ActiveChordStatus::Unread }),
+
+// ---------------------------------------------------------------------------------------
+// chords v2, three closure BODIES (late): cut as fragments of ChordsV2::drain_releases /
+// process_presses and wrapped in synthetic signatures with their captures as parameters.  The
+// iteration around them (ArrayDeque::retain, iter_mut().for_each, filter().find()) is std and stays
+// assumed; what one call of each closure does is proved.
+// ---------------------------------------------------------------------------------------
+//@ raw
+use ActiveChordStatus::*;
+// slices of structural-equality types: `contains` is membership (ASSUMED std contract)
+pub assume_specification<T: PartialEq> [<[T]>::contains] (s: &[T], x: &T) -> (r: bool)
+    ensures r == s@.contains(*x);
+/// the elements retain() keeps, given the decisions its predicate returned one by one
+pub open spec fn pick<T>(s: Seq<T>, d: Seq<bool>) -> Seq<T>
+    decreases s.len(),
+{
+    if s.len() == 0 || d.len() != s.len() { Seq::empty() }
+    else if d.last() { pick(s.drop_last(), d.drop_last()).push(s.last()) }
+    else { pick(s.drop_last(), d.drop_last()) }
+}
+impl<T, const N: usize> HVec<T, N> {
+    /// heapless retain (ASSUMED): the predicate is called once on each element, front to back, and
+    /// the elements it answered true for are kept
+    #[verifier::external_body]
+    pub fn retain<F: FnMut(&T) -> bool>(&mut self, f: F)
+        requires forall|x: &T| f.requires((x,)),
+        ensures exists|d: Seq<bool>| #![trigger d.len()] d.len() == old(self)@.len()
+            && (forall|i: int| #![trigger d[i]] 0 <= i < d.len() ==> f.ensures((&old(self)@[i],), d[i]))
+            && final(self)@ == pick(old(self)@, d),
+    { unimplemented!() }
+    #[verifier::external_body]
+    pub fn is_empty(&self) -> (r: bool) ensures r == (self@.len() == 0) { unimplemented!() }
+}
+proof fn lemma_pick_ne(s: Seq<u16>, d: Seq<bool>, x: u16)
+    requires d.len() == s.len(), forall|i: int| 0 <= i < s.len() ==> d[i] == (s[i] != x),
+    ensures pick(s, d) == s.filter(|k: u16| k != x),
+    decreases s.len(),
+{
+    reveal(Seq::filter);
+    if s.len() > 0 { lemma_pick_ne(s.drop_last(), d.drop_last(), x); }
+}
+/// the status of a chord once its release rule is satisfied
+spec fn released_form(s: ActiveChordStatus) -> ActiveChordStatus {
+    match s { ActiveChordStatus::Unread | ActiveChordStatus::UnreadReleased => ActiveChordStatus::UnreadReleased, _ => ActiveChordStatus::Released }
+}
+
+// (1) one active chord sees the release of key j (the for_each closure in drain_releases): a key
+// that does not take part changes nothing; a participant is struck off the keys still to be
+// released, and the chord counts as released exactly when none is left - "no later than the release
+// of all participants" (for release-on-first-release the list starts empty: get_active_chord above)
+//@ fragment keyberon/src/chord.rs fn drain_releases in `ChordsV2<'a, T>` block-after `achs.iter_mut().for_each(|ach| {` as release_in_active_chord
+//@@ header
+fn release_in_active_chord<'a, T>(ach: &mut ActiveChord<'a, T>, j: u16)
+//@@ resub R12 1 /\.retain\(\|pk\| (\*pk != j)\)/ => `.retain(|pk: &u16| -> (b: bool) ensures b == (\1) { \1 })`
+//@@ spec
+    ensures
+        final(ach).coordinate == old(ach).coordinate, final(ach).participating_keys@ == old(ach).participating_keys@,
+        final(ach).action == old(ach).action, final(ach).delay == old(ach).delay,
+        !old(ach).participating_keys@.contains(j) ==> final(ach).remaining_keys_to_release@ == old(ach).remaining_keys_to_release@ && final(ach).status == old(ach).status,
+        old(ach).participating_keys@.contains(j) ==> {
+            let rest = old(ach).remaining_keys_to_release@.filter(|k: u16| k != j);
+            &&& final(ach).remaining_keys_to_release@ == rest
+            &&& final(ach).status == (if rest.len() == 0 { released_form(old(ach).status) } else { old(ach).status })
+        },
+//@@ after-re 1 /\.retain\(\|pk: &u16\|[^;]*\);/
+    proof {
+        let s = old(ach).remaining_keys_to_release@;
+        let d = choose|d: Seq<bool>| #![trigger d.len()] d.len() == s.len()
+            && (forall|i: int| #![trigger d[i]] 0 <= i < d.len() ==> d[i] == (s[i] != j))
+            && ach.remaining_keys_to_release@ == pick(s, d);
+        lemma_pick_ne(s, d, j);
+    }
+
+// (2) "that chord's action is performed ... for exactly the pressed key set": the predicate handed
+// to find() when backtracking in process_presses accepts a chord iff its participants and the
+// accumulated presses are the SAME set (both inclusions)
+//@ raw
+/// R48: `xs.iter().all(|v| ys.contains(v))` -> these helpers (ASSUMED std meaning: every element of
+/// xs is an element of ys)
+#[verifier::external_body]
+fn verif_hv_in_slice<const N: usize>(xs: &HVec<u16, N>, ys: &[u16]) -> (r: bool)
+    ensures r == (forall|i: int| 0 <= i < xs@.len() ==> ys@.contains(#[trigger] xs@[i])),
+{ unimplemented!() }
+#[verifier::external_body]
+fn verif_slice_in_hv<const N: usize>(xs: &[u16], ys: &HVec<u16, N>) -> (r: bool)
+    ensures r == (forall|i: int| 0 <= i < xs@.len() ==> ys@.contains(#[trigger] xs@[i])),
+{ unimplemented!() }
+//@ fragment keyberon/src/chord.rs fn process_presses in `ChordsV2<'a, T>` block-after `re:let completed_chord = possible_chords[\s\S]*?\.find\([\s\S]*?\|pch\|\s*\{` as chord_is_exactly_the_pressed_set
+//@@ header
+fn chord_is_exactly_the_pressed_set<'a, T>(pch: &&ChordV2<'a, T>, accumulated_presses: &HVec<u16, SMOL_Q_LEN>) -> bool
+//@@ resub R48 * /accumulated_presses\s*\.iter\(\)\s*\.all\(\|acp\| pch\.participating_keys\.contains\(acp\)\)/ => `verif_hv_in_slice(accumulated_presses, pch.participating_keys)`
+//@@ resub R48 * /pch\s*\.participating_keys\s*\.iter\(\)\s*\.all\(\|pk\| accumulated_presses\.contains\(pk\)\)/ => `verif_slice_in_hv(pch.participating_keys, accumulated_presses)`
+//@@ ret r
+//@@ spec
+    ensures
+        r == ((forall|i: int| 0 <= i < accumulated_presses@.len() ==> pch.participating_keys@.contains(#[trigger] accumulated_presses@[i]))
+            && (forall|i: int| 0 <= i < pch.participating_keys@.len() ==> accumulated_presses@.contains(#[trigger] pch.participating_keys@[i]))),
+//@ fragment keyberon/src/chord.rs fn process_presses in `ChordsV2<'a, T>` block-after `re:chord_candidates\.is_full\(\) \{[\s\S]*?\.find\([\s\S]*?\|pch\|\s*\{` as chord_is_exactly_the_pressed_set_2
+//@@ header
+fn chord_is_exactly_the_pressed_set_2<'a, T>(pch: &&ChordV2<'a, T>, accumulated_presses: &HVec<u16, SMOL_Q_LEN>) -> bool
+//@@ resub R48 * /accumulated_presses\s*\.iter\(\)\s*\.all\(\|acp\| pch\.participating_keys\.contains\(acp\)\)/ => `verif_hv_in_slice(accumulated_presses, pch.participating_keys)`
+//@@ resub R48 * /pch\s*\.participating_keys\s*\.iter\(\)\s*\.all\(\|pk\| accumulated_presses\.contains\(pk\)\)/ => `verif_slice_in_hv(pch.participating_keys, accumulated_presses)`
+//@@ ret r
+//@@ spec
+    ensures
+        r == ((forall|i: int| 0 <= i < accumulated_presses@.len() ==> pch.participating_keys@.contains(#[trigger] accumulated_presses@[i]))
+            && (forall|i: int| 0 <= i < pch.participating_keys@.len() ==> accumulated_presses@.contains(#[trigger] pch.participating_keys@[i]))),
+//@ fragment keyberon/src/chord.rs fn process_presses in `ChordsV2<'a, T>` block-after `re:\} else \{\s*chord_candidates\s*\.iter\(\)[\s\S]*?\.find\([\s\S]*?\|pch\|\s*\{` as chord_is_exactly_the_pressed_set_3
+//@@ header
+fn chord_is_exactly_the_pressed_set_3<'a, T>(pch: &&ChordV2<'a, T>, accumulated_presses: &HVec<u16, SMOL_Q_LEN>) -> bool
+//@@ resub R48 * /accumulated_presses\s*\.iter\(\)\s*\.all\(\|acp\| pch\.participating_keys\.contains\(acp\)\)/ => `verif_hv_in_slice(accumulated_presses, pch.participating_keys)`
+//@@ resub R48 * /pch\s*\.participating_keys\s*\.iter\(\)\s*\.all\(\|pk\| accumulated_presses\.contains\(pk\)\)/ => `verif_slice_in_hv(pch.participating_keys, accumulated_presses)`
+//@@ ret r
+//@@ spec
+    ensures
+        r == ((forall|i: int| 0 <= i < accumulated_presses@.len() ==> pch.participating_keys@.contains(#[trigger] accumulated_presses@[i]))
+            && (forall|i: int| 0 <= i < pch.participating_keys@.len() ==> accumulated_presses@.contains(#[trigger] pch.participating_keys@[i]))),
+
+// (3) "none of the participating keys' individual actions are [performed]" / "keys that do not
+// complete a chord are not swallowed": after a chord fired, exactly the queued PRESSES of the keys
+// that went into it are removed from the input queue; every other queued event stays, in order
+// (the last statement of process_presses, a FRAGMENT, stmt-at)
+//@ item keyberon/src/layout.rs enum Event
+//@@ keep-vis
+//@ item keyberon/src/layout.rs struct Queued
+//@@ keep-vis
+//@@ no-derives
+//@ raw
+/// the chords-v2 input queue (an ArrayDeque): stub with the ASSUMED contract of retain
+#[verifier::external_body]
+pub struct VQueue { verif_opaque: u8 }
+impl VQueue {
+    pub uninterp spec fn view(&self) -> Seq<Queued>;
+    #[verifier::external_body]
+    pub fn retain<F: FnMut(&Queued) -> bool>(&mut self, f: F)
+        requires forall|x: &Queued| f.requires((x,)),
+        ensures exists|d: Seq<bool>| #![trigger d.len()] d.len() == old(self)@.len()
+            && (forall|i: int| #![trigger d[i]] 0 <= i < d.len() ==> f.ensures((&old(self)@[i],), d[i]))
+            && final(self)@ == pick(old(self)@, d),
+    { unimplemented!() }
+}
+impl<const N: usize> HVec<u16, N> {
+    #[verifier::external_body]
+    pub fn contains(&self, x: &u16) -> (r: bool) ensures r == self@.contains(*x) { unimplemented!() }
+}
+/// a queued event stays unless it is the press of a key the chord consumed
+spec fn stays(q: Queued, consumed: Seq<u16>) -> bool {
+    match q.event { Event::Press(_, j) => !consumed.contains(j), _ => true }
+}
+proof fn lemma_pick_stays(s: Seq<Queued>, d: Seq<bool>, consumed: Seq<u16>)
+    requires d.len() == s.len(), forall|i: int| 0 <= i < s.len() ==> d[i] == stays(s[i], consumed),
+    ensures pick(s, d) == s.filter(|q: Queued| stays(q, consumed)),
+    decreases s.len(),
+{
+    reveal(Seq::filter);
+    if s.len() > 0 { lemma_pick_stays(s.drop_last(), d.drop_last(), consumed); }
+}
+//@ fragment keyberon/src/chord.rs fn process_presses in `ChordsV2<'a, T>` stmt-at `re:self\.queue\.retain\(\|qd\| match qd\.event \{\s*Event::Press\(_, j\) => !` as drop_consumed_presses
+//@@ header
+fn drop_consumed_presses(queue: &mut VQueue, accumulated_presses: &HVec<u16, SMOL_Q_LEN>, presses: &HVec<u16, SMOL_Q_LEN>)
+//@@ resub R35 1 /self\.queue\.retain\(\|qd\| (match qd\.event \{[\s\S]*?\})\);/ => `queue.retain(|qd: &Queued| -> (b: bool) ensures b == stays(*qd, accumulated_presses@) { \1 });`
+//@@ spec
+    ensures final(queue)@ == old(queue)@.filter(|q: Queued| stays(q, accumulated_presses@)),
+//@@ after-re 1 /queue\.retain\([\s\S]*?\}\);/
+    proof {
+        let s = old(queue)@;
+        let d = choose|d: Seq<bool>| #![trigger d.len()] d.len() == s.len()
+            && (forall|i: int| #![trigger d[i]] 0 <= i < d.len() ==> d[i] == stays(s[i], accumulated_presses@))
+            && queue@ == pick(s, d);
+        lemma_pick_stays(s, d, accumulated_presses@);
+    }
